@@ -1093,7 +1093,7 @@ fn explore(ctx: &Ctx) {
         json!({"tables": TABLES, "first_key_per_table": TABLES.iter().zip(START_OFFSETS).map(|(t, o)| (t.to_string(), format!("{:#x}", RegistryKey::MAX_WRITABLE.as_u32() - o))).collect::<BTreeMap<_, _>>(),
                "MAX_WRITABLE": format!("{:#x}", RegistryKey::MAX_WRITABLE.as_u32()), "DEFAULT_VALUE": format!("{:#x}", RegistryKey::DEFAULT_VALUE.as_u32())}),
     );
-    let depth = ctx.pick(4usize, 12usize);
+    let depth = ctx.pick(5usize, 12usize);
     let model = Compression { pool };
     let stats = bfs(&model, depth, u64::MAX, ctx);
     let bfs_wall = ctx.elapsed();
